@@ -156,7 +156,7 @@ prop(
                  "all helpers share one HPKE key registry (as in the repository's own tests)"],
     shards={"quick": 16, "thorough": 16},
     min_evaluations={"quick": 600, "thorough": 6000},
-    must_see=[("duplicate_rejected_on_expected_shards", 300), ("distinct_input_accepted", 60), ("dup_classes", 10)],
+    must_see=[("duplicate_rejected_on_expected_shards", 300), ("distinct_input_accepted", 60), ("dup_classes", 10), ("tag_set_duplicates_rejected", 1000), ("tag_set_near_equal_tags_accepted", 10000)],
     watchdog_s={"quick": 1200, "thorough": 7200},
 )
 
@@ -234,7 +234,7 @@ prop(
     min_evaluations={"quick": 150000, "thorough": 1000000},
     must_see=[("variants", 16), ("windows", 8), ("pending_returns", 20000), ("lower_bound_checks_need_ge2", 5000),
               ("repoll_checks", 5000), ("out_of_order_completions", 5000), ("dependency_distances", 8),
-              ("tasks_cancelled_by_early_exit", 1000), ("validated_batch_and_window", 7), ("error_positions", 20)],
+              ("tasks_cancelled_by_early_exit", 1000), ("validated_batch_and_window", 7), ("error_positions", 20), ("mt_quiescence_checks", 100000, "thorough")],
 )
 
 prop(
@@ -357,19 +357,39 @@ prop(
           "IpaHttpServer::start_on: pre-bound listener handed in (TestServer) and listener = None (a second IpaHttpServer on the same "
           "transport with ServerConfig.port = None that binds by itself, as bin/helper.rs does), i.e. all four (disable_https, listener) "
           "arms for both flavours; a case is distinct by (server, method, template, variant, identity mode, header value, start mode) "
-          "and non-trivial when a response was received and judged"),
+          "and non-trivial when a response was received and judged. "
+          "Two further monitors drive hyper's connection-level client over sockets they open themselves: verif_c20_http_versions sends every "
+          "(server, route, registered method) over TLS and plain as HTTP/1.1 {origin-form, absolute-form http://, absolute-form https://} and "
+          "HTTP/2 {:scheme https, :scheme http} x {no certificate, certificate of a configured peer, unknown certificate} x {no header, "
+          "identity header of each peer, malformed, other flavour's} - under TLS a header never authenticates and never changes the outcome "
+          "whatever the HTTP version / request-URI scheme, with TLS off it is honoured whatever they are; verif_c20_unpinned_peers starts "
+          "further TLS servers (pre-bound and self-bound) whose network configuration has certificate: None for every subset of the peers "
+          "(helper ring of 3, shard network of 2) and probes the protected routes with no certificate / each peer's certificate / a foreign "
+          "certificate: only a caller whose certificate is pinned in that configuration is served (record stream filed under its own "
+          "identity), everybody else gets 401 or a failed TLS handshake, the request handler is not invoked and no record stream is created"),
     assumptions=["routes are declared with the repository's idiom (AXUM_PATH constants or literals in .route(..) inside functions returning "
                  "Router reachable from handlers::mpc_router / shard_router); anything the scanner cannot follow makes the check inconclusive",
                  "report-collector allow-list (GET /echo, GET /metrics, POST /query, POST /query/:query_id/input, GET /query/:query_id, "
                  "POST /query/:query_id/kill, GET /query/:query_id/complete on the helper server; GET /echo on the shard server) is part of "
                  "the oracle: a new public route has to be added to it deliberately",
-                 "TestServer topology: one ring, one shard per helper, the repository's test certificates; HTTP/2 clients (IpaHttpClient)",
+                 "TestServer topology: one ring, one shard per helper (two shards in the unpinned-peer configurations), the repository's three unexpired "
+                 "test certificates; clients: IpaHttpClient (HTTP/2) and hyper's connection-level HTTP/1.1 and HTTP/2 client over tokio-rustls",
+                 "a network configuration in which no peer has a pinned certificate cannot be started with TLS (rustls refuses an empty trust "
+                 "store: start_on panics); that loud refusal is recorded (unpinned_configs_refused_at_startup) and not probed further",
                  "connection errors and timeouts (30 s per request) are reported as inconclusive, never as violations"],
     shards={"quick": 8, "thorough": 16},
     min_evaluations={"quick": 4000, "thorough": 40000},
     must_see=[("routes", 13), ("protected_routes", 6), ("allowed_routes", 8), ("routes_confirmed", 14), ("binding_ok", 10),
               ("binding_refused_ok", 5), ("status_classes", 20), ("start_modes", 8), ("judged_ok_on_self_bound_listener", 1000),
-              ("binding_ok_on_self_bound_listener", 5), ("binding_refused_ok_on_self_bound_listener", 3)],
+              ("binding_ok_on_self_bound_listener", 5), ("binding_refused_ok_on_self_bound_listener", 3),
+              # verif_c20_http_versions: {mpc, shard} x {https, http} x 5 wire forms answered; HTTP/1.1 and HTTP/2 seen on both
+              ("http_variants", 20), ("http_versions_answered", 4), ("client_kinds", 4), ("httpver_refused_401", 100),
+              ("httpver_tls_header_ignored", 100), ("httpver_pinned_peer_accepted", 100), ("httpver_plain_header_accepted", 40),
+              ("httpver_plain_malformed_refused", 20), ("httpver_stream_under_own_identity", 40),
+              # verif_c20_unpinned_peers: (7 + 3 startable configurations) x 2 start modes; 2 x 2 all-unpinned ones refused at startup
+              ("unpinned_configs", 20), ("unpinned_configs_refused_at_startup", 4), ("unpinned_configs_answered", 30),
+              ("unpinned_refused_401", 100), ("unpinned_refused_at_tls", 100), ("unpinned_pinned_peer_accepted", 100),
+              ("unpinned_stream_under_own_identity", 40), ("unpinned_no_stream_checked", 5), ("unpinned_routes_refused", 6)],
     watchdog_s={"quick": 600, "thorough": 1800},
     pre_run=_routes.pre_run,
 )
@@ -628,7 +648,7 @@ TECHNIQUE = {
     "C17": "runtime differential monitoring against a reference parser over all chunkings (with Pending, empty chunks, upstream errors); Miri",
     "C18": "history enumeration through the production request handlers against an independent reference automaton, run-until-idle under a paused clock",
     "C19": "unique-id histories: multiset/placement oracle, cross-helper and cross-schedule order comparison; fault injection on input and shard streams; shuttle",
-    "C20": "route discovery from source + request matrix over in-process handler and real TLS/plain loopback listeners (pre-bound and self-bound) with a default-deny oracle",
+    "C20": "route discovery from source + request matrix over in-process handler and real TLS/plain loopback listeners (pre-bound and self-bound; HTTP/1.1 and HTTP/2 request forms; network configurations with unpinned peers) with a default-deny oracle",
 }
 
 # Thorough tiers whose seeded workloads finish in well under two minutes are repeated under derived seeds
